@@ -29,7 +29,7 @@ func init() {
 	register("C12", "Decided: layout attributes of the extracted grammar. Not decided: language equivalence under re-layout.",
 		ruleT10Layout, ruleT10a, ruleL19, ruleT10k)
 	register("C13", "Decided: explicit crash primitives reachable from the entry points; parser panic recovery. Not decided: implicit run-time panics and the complexity clause.",
-		ruleE6, ruleD13, ruleX13, ruleM13, ruleR13, ruleI13, ruleA13, ruleV13, ruleE6m, ruleM13b, ruleG13)
+		ruleE6, ruleD13, ruleX13, ruleM13, ruleR13, ruleI13, ruleA13, ruleV13, ruleE6m, ruleM13b, ruleG13, ruleL13)
 	register("C14", "Decided: emission-time context vs traversal-time writers, no package-level writes after init, append-only ocode list, unconditional forward emission loop.",
 		ruleE5, ruleE1, ruleE1b, ruleE3, ruleE3s, ruleEmitLoop, ruleP7, ruleP8)
 	register("C15", "Decided: symbol keys are exact identifier text, tables are never iterated, symbol ordering ignores names.",
